@@ -64,14 +64,17 @@
 		return (_res);						\
 } while (0)
 
+/* Magnitude in unsigned: "-2147483648" (and overflow) must not be signed
+ * overflow - it is UB and gcc -O2 use it (INT32_MIN == str2s32() is false). */
 #define STR2SNUM(_str, _len, _type) do {				\
-		_type _res = 0, _sign = 1;				\
+		uint64_t _ures = 0;					\
+		int _sign = 1;						\
 		if (NULL == (_str) || 0 == (_len))			\
 			return (0);					\
 		STR2NUM_SIGN((_str), (_len), _sign);			\
-		STR2NUM((_str), (_len), _res);				\
-		_res *= _sign;						\
-		return (_res);						\
+		STR2NUM((_str), (_len), _ures);				\
+		return ((_type)((0 > _sign) ?				\
+		    (((uint64_t)0) - _ures) : _ures));			\
 } while (0)
 
 
